@@ -22,4 +22,5 @@ Definition run (op : Z) (arg : V) : V :=
   if op =? 36 then run_container_acc arg else
   if op =? 37 then run_compactb arg else
   if op =? 38 then run_fs arg else
+  if op =? 39 then run_access arg else
   fail EOther.
